@@ -60,6 +60,9 @@ func (o *Outcome) checkEvent(where string, ev *vh.ForwardEvent) *vh.Finding {
 
 // CheckC01: at-least-once delivery / nothing lost or altered at any stop.
 func CheckC01(o *Outcome) *vh.Finding {
+	if len(o.OrphansAtStart) > 0 {
+		return vh.Fail("e2e:queue-not-reattached-at-start", "queue directories held chunk files when the agent started and no pipeline was created for them, so their chunks are not sent however healthy the upstream is (until a new record of the same key set happens to arrive): %v\n%s", o.OrphansAtStart, o.describe())
+	}
 	if len(o.ServerErrs) > 0 {
 		return vh.Fail("e2e:malformed-message-sent", "the upstream received undecodable messages: %v", o.ServerErrs)
 	}
